@@ -976,6 +976,15 @@ impl Hook for CrashHook {
     });
   }
   fn teardown(&self, _: usize, _: usize) {}
+  fn plain_written(&self, _addr: usize, _len: usize) {
+    CE.with(|c| {
+      let mut c = c.borrow_mut();
+      if c.budget < 0 && c.capture {
+        let img = unsafe { std::slice::from_raw_parts(c.base as *const u8, c.cap) }.to_vec();
+        c.images.push((img, "after-zeroing", 0));
+      }
+    });
+  }
 }
 
 /// recovery oracle on one crash image
@@ -1106,6 +1115,10 @@ fn c06_cell_from(run: &Run, cfg: &Cfg, alphabet: &[Op], depth: usize, start: usi
             let m = r.slots[*i as usize].m;
             lives.retain(|l| l.0 != m);
           }
+        }
+        // clear() gives everything back: nothing is live any more once it has begun
+        if let Op::Clear = op {
+          lives.clear();
         }
         if last {
           let rg = r.a.ranges();
@@ -1254,7 +1267,7 @@ pub fn check_c06(tier: Tier) -> i32 {
   let thorough = tier == Tier::Thorough;
   use Op::*;
   use Sz::*;
-  let alphabet = vec![B(N(7)), B(N(16)), B(N(40)), B(R), T(U64), AB(U64, N(4)), D(0), D(1), F(0), Disc];
+  let alphabet = vec![B(N(7)), B(N(16)), B(N(40)), B(R), T(U64), AB(U64, N(4)), D(0), D(1), F(0), Disc, Clear];
   let mut items = vec![];
   for fl in Fl::ALL {
     for (reserved, min_seg) in [(0u32, 8u32), (5, 0)] {
